@@ -8,11 +8,13 @@
    Proved for the FRAGMENT (expressions, statements, procedure and function calls: (4)..(4e)) and end to end for
    whole programs of the fragment (C01_program_partial): C01_full for the compile function `model_compile`, the
    executable model of xcmp's code generator with the assembler model, which tools/c01.py ties to the real xcmp
-   (per procedure against `xcmp -S`, per program against the bytes of the binary).
+   (per procedure against `xcmp -S`, per program against the bytes of the binary); and from the SOURCE program
+   (C01_source_program_partial): front-end passes (C07's theorem) + code generator + layout.
    NOT proved: C01_full for the real compiler on all programs.  Outside the fragment the property is decided per
    explored program by the extracted specs on the real compiler's binary (tools/c01.py): translation validation. *)
 From Coq Require Import ZArith List String Lia.
-From HexVerif Require Import WMap Isa XAst XSem XSemProps XCodegenIsa XCodegenInv XCodegenExpr XCodegenStmt AsmSpec AsmSpecProofs XCodegenBridge XCodegenCall XCodegenImage XCodegenProgram XCodegenDemo XCodegenPeephole.
+From HexVerif Require Import WMap Isa XAst XSem XSemProps XCodegenIsa XCodegenInv XCodegenExpr XCodegenStmt AsmSpec AsmSpecProofs XCodegenBridge XCodegenCall XCodegenImage XCodegenProgram XCodegenDemo XCodegenPeephole XCodegenSource.
+From HexVerif Require XConstProp XFrontPreserve.
 Import ListNotations.
 Local Open Scope Z_scope.
 
@@ -40,8 +42,13 @@ Definition isa_shows (img : list Z) (inp : list Z) (n : nat) (b : behaviour) : P
    C01_full (real xcmp) is NOT proved.  What is proved is C01_program_partial below: C01_full for the compile
    function `model_compile frames false`, which adds these hypotheses to the full statement:
      - compile is the MODEL (XCodegenProgram.model_compile), not the C++ program; its input is the program as the
-       code generator reads it (the output of XConstProp.front; that front preserves XSem's behaviour is C07's
-       subject and is not proved for whole programs);
+       code generator reads it (the output of XConstProp.front).  C01_source_program_partial below composes it with
+       the front-end theorem of C07 (Properties_C07.C07_front_preserves_run_partial: CreateSymbols, ConstProp and
+       OptimiseExpr preserve XSem's behaviour of whole programs), so that the statement starts from the SOURCE
+       program; what remains excluded on that side are the side conditions of that theorem: names_ok (no procedure
+       named ""), front_swap_safe (no `>` / `<=` with two non-constant operands one of which contains a call; no
+       maximal constant subexpression topped by ~= >= > <=; no unary minus of a non-constant operand; no call spelled
+       4294967295(..)), and a behaviour within a quarter of the default fuel;
      - the frame numbers (size, usable slots, outgoing words per procedure) and the order of the constant pool are a
        parameter `prm : params` (xcmp computes them itself; tools/c01.py reads them off its listing): the theorem
        holds for every choice that passes the validation;
@@ -49,7 +56,9 @@ Definition isa_shows (img : list Z) (inp : list Z) (n : nat) (b : behaviour) : P
        functions with value and array formals and var locals that hide no global; the statements and expressions of
        (4)..(4d), including reads a[e] and assignments a[e1] := e2 of global arrays and of array formals, and array
        names (global arrays, array formals) as actuals of array formals (passed by address), and the system call get
-       (console input, end of input = 255) as the whole right-hand side of an assignment or value of a return; constants that do not fit an immediate
+       (console input, end of input = 255); function calls and get may stand as the whole right-hand side of an
+       assignment, the whole value of a return or the whole condition of an if / while, or at the bottom of the LEFT
+       spine of such an expression under + - = < ~ with simple right operands (literals, variables); constants that do not fit an immediate
        operand must be listed in the pool parameter -- otherwise model_compile returns None;
      - model_compile's built-in VALIDATION succeeded (it returns None otherwise): the ISA's decoder reads the stub
        and every procedure's code at the layout's label positions, the loaded words hold those bytes, the stack
@@ -144,7 +153,15 @@ Print Assumptions C01_expr_fragment_partial.
    the whole value of a return, a call f(e1..en) of a function with call-free actuals (cgx; see (4c)) or the system
    call get `2(s)` with a call-free stream (genSysCall in an expression: the stream to the outgoing word sp+2, LDAC 2;
    SVC; LDAM 1; LDAI 1 -- the ISA puts the byte into the outgoing word sp+1; XSem: a console byte mod 256, or 255 at the
-   end of the input without consuming; file streams are Unsupported in XSem, nothing claimed).  `cs` models StmtCodeGen and genSysCall (call-free
+   end of the input without consuming; file streams are Unsupported in XSem, nothing claimed).
+   LEFT-SPINE calls (cgl): a right-hand side, a return value or the condition of an if / while may also be an expression
+   with such a call or get at the bottom of its left spine: `l + r`, `l - r`, `l = r`, `l < r` with r simple (a literal
+   or a variable; r = 0 has xcmp's special case) and `~ l`, nested on the left to any depth, e.g.
+   `x := f(a) + x`, `return (get(0) - 48) + d`, `while ~(get(0) = 255) do ..`.  genBinopOperands then computes the left
+   operand first and loads the simple right one into breg afterwards, which is XSem's order (operands [l; r]: left to
+   right; XSem answers OrderDependent when the call writes what r reads, so nothing is claimed then; when the call
+   halts XSem accepts it only if r is a literal).  A call in a RIGHT operand, in an operand that needs a temporary, in a
+   subscript or in an actual is outside.  `cs` models StmtCodeGen and genSysCall (call-free
    actuals) as handed to OptimiseDirectives, i.e. BEFORE its three peephole rewrites (tools/c01.py ties
    prologue ++ cs body ++ epilogue, with the peepholes applied by the executable `peephole`, to `xcmp -S`).
    stmt_ok f: whatever XSem.exec with fuel f answers for the statement from a state st related to the memory m
@@ -163,8 +180,8 @@ Print Assumptions C01_expr_fragment_partial.
    By induction on the fuel, so for any number of loop iterations and any nesting.
    Layout hypotheses: temporaries and outgoing area (sp .. sp+og-1) inside memory, unprotected, not word 1,
    disjoint from each other and from the variables; distinct variables have distinct words; sp+2 usable by `stop`.
-   Missing for C01_full: calls inside operands of an operator or as actuals (procedure-call statements and function
-   calls as a whole right-hand side: see (4c), (4d)), get inside an operand or as an actual,
+   Missing for C01_full: calls (and get) in a right operand, under and / or / unary minus, in subscripts and as actuals
+   (procedure-call statements, function calls as a whole right-hand side and on the left spine: see above, (4c), (4d)),
    local arrays and strings, the peephole pass, and the layout of whole programs. *)
 Theorem C01_stmt_fragment_partial :
   forall (venv aenv : string -> option loc) (garr : string -> bool) (abase alen_of : string -> Z) (pool : Z -> option Z) (size nslots off0 og : Z)
@@ -358,31 +375,31 @@ Print Assumptions C01_cproc_lowered_shape.
        func fd(val k) is if k = 0 then return 7 else return fd(k - 1)
        proc cd(val n, array b) is var t;
          { t := n + 48; put(t, 0); g := g + n; b[n] := t; if n = 0 then skip else cd(n - 1, b) }
-       proc main() is { g := 0; cd(3, a); g := fd(g); g := g + a[2]; ch := get(0); put(ch, 0) }
+       proc main() is { g := 0; cd(3, a); g := fd(g) + g; g := g + a[2]; ch := get(0) + 1; put(ch, 0) }
    -- a recursive procedure with a value formal, an array formal and a local that assigns elements of the global array
    it was handed by address and passes it on, a recursive
-   function used as `return f(..)` and as `x := f(..)`, all called with call-free actuals, a read of the array, and one
-   byte read from the console by get and echoed.  XConstProp.front only
+   function used as `return f(..)` and as the left operand in `x := f(..) + x`, all called with call-free actuals, a read
+   of the array, and one byte read from the console by get (the left operand of `get(0) + 1`) and written back.  XConstProp.front only
    turns put(..) and get(..) into the system calls (C01_demo_front); with the console bytes 66 67 XSem gives it the
-   outputs "3210B" and one byte consumed (C01_demo_spec).
+   outputs "3210C" and one byte consumed (C01_demo_spec).
    Its image is laid out as xcmp does (BR _start; DATA 199993; g; a's word = 199996; _start: LDAP _exit; BR main; ..)
    from the model's lowered code -- prologue ++ cs body ++ exit label ++ epilogue, BEFORE the peepholes, which is the
-   code (4d) speaks of -- by the assembler model AsmLayout.assemble_directives (C01_demo_assembled: 196 bytes).  The
+   code (4d) speaks of -- by the assembler model AsmLayout.assemble_directives (C01_demo_assembled: 200 bytes).  The
    ISA runs that image from reset to the spec's behaviour (C01_demo_image_runs, by computation).
    prog_hyps is the conjunction of the hypotheses of C01_calls_partial, word for word (C01_calls_of_hyps derives the
-   theorem from it); C01_calls_nonvacuous_hyps: it holds for the demo, with P = the code words 6..48, m0 = the loaded
+   theorem from it); C01_calls_nonvacuous_hyps: it holds for the demo, with P = the code words 6..49, m0 = the loaded
    image, lab = the label positions of the layout, stack_lo = 1000, stack_hi = 199996, maxframe = 6, depth bound 10.  The code_at
    hypotheses are established by running the ISA's own decoder over the image (XCodegenImage.code_chk_sound through
    C01_instr_at_of_decode).
    C01_calls_nonvacuous_run: the theorem applied.  From main's frame (mem[1] = 199988, g and ch unassigned, a empty,
    the console holding 66 67) the ISA runs the code of main's body
-   `g := 0; cd(3, a); g := fd(g); g := g + a[2]; ch := get(0); put(ch, 0)` at bytes [140, 187) -- four nested
+   `g := 0; cd(3, a); g := fd(g) + g; g := g + a[2]; ch := get(0) + 1; put(ch, 0)` at bytes [140, 191) -- four nested
    activations of cd, each with prologue, output, an element assignment through the array formal, recursive call
    handing the array on, and epilogue, then seven of
    the function fd, each handing its result back through the caller's outgoing word, then the array read, then get
-   and put -- to the end of that code; the outputs among its events are exactly 51, 50, 49, 48, 66 on stream 0, the
+   and put -- to the end of that code; the outputs among its events are exactly 51, 50, 49, 48, 67 on stream 0, the
    console is left with the byte 67; mem[1] is 199988
-   again, g's word holds 57 = fd(6) + a[2], ch's word 66 and the cell of a[2] (word 199998) holds 50.  Not by running the ISA: by
+   again, g's word holds 63 = fd(6) + 6 + a[2], ch's word 67 and the cell of a[2] (word 199998) holds 50.  Not by running the ISA: by
    C01_calls_partial from XSem's run of the statement.
    demo_cproc_cd / _main / _fd (XCodegenDemo.v): what the executable model (with its peephole pass) generates for
    the three; tools/c01.py (coq_demo_listing_tie) re-checks these instruction lists, as written in coq/XCodegenDemo.v,
@@ -401,22 +418,22 @@ Proof. exact demo_hyps. Qed.
 Print Assumptions C01_calls_nonvacuous_hyps.
 
 Theorem C01_calls_nonvacuous_run : forall a b inp, console inp = [66; 67] -> exists evs a' b' m',
-  runs inp (mk 140 a b 0 (wr demo_m0 1 199988)) evs {| console := [67]; files := files inp |} (mk 187 a' b' 0 m') /\
-  writes evs = [(0, 51); (0, 50); (0, 49); (0, 48); (0, 66)] /\
-  rd m' 1 = 199988 /\ rd m' 2 = 57 /\ rd m' 4 = 66 /\ rd m' 199998 = 50.
+  runs inp (mk 140 a b 0 (wr demo_m0 1 199988)) evs {| console := [67]; files := files inp |} (mk 191 a' b' 0 m') /\
+  writes evs = [(0, 51); (0, 50); (0, 49); (0, 48); (0, 67)] /\
+  rd m' 1 = 199988 /\ rd m' 2 = 63 /\ rd m' 4 = 67 /\ rd m' 199998 = 50.
 Proof. exact demo_main_body_runs. Qed.
 Print Assumptions C01_calls_nonvacuous_run.
 
 Example C01_demo_front : XConstProp.front demo_src = XConstProp.COk demo.
 Proof. exact demo_front. Qed.
 Example C01_demo_spec : run_fuel 100 1000 10 demo [66; 67] =
-  Behaviour {| outputs := [(0, 51); (0, 50); (0, 49); (0, 48); (0, 66)]; consumed := 1; exit_value := 0 |}.
+  Behaviour {| outputs := [(0, 51); (0, 50); (0, 49); (0, 48); (0, 67)]; consumed := 1; exit_value := 0 |}.
 Proof. exact demo_spec. Qed.
 Example C01_demo_assembled : exists o, AsmLayout.assemble_directives demo_dirs [] = AsmModel.Ok o /\ AsmLayout.ao_image o = demo_bytes /\
   map (fun l => (l, lab_of (AsmLayout.ao_layout o) l)) demo_label_names = demo_labs.
 Proof. exact demo_assembled. Qed.
 Example C01_demo_image_runs : isa_shows (words_of_bytes demo_bytes) [66; 67] 700
-  {| outputs := [(0, 51); (0, 50); (0, 49); (0, 48); (0, 66)]; consumed := 1; exit_value := 0 |}.
+  {| outputs := [(0, 51); (0, 50); (0, 49); (0, 48); (0, 67)]; consumed := 1; exit_value := 0 |}.
 Proof. vm_compute. repeat split. Qed.
 
 (* (4f) PARTIAL, the end-to-end statement: C01_full for the model compile function, for every choice of frame
@@ -435,10 +452,10 @@ Proof. vm_compute. repeat split. Qed.
    from the validation (the_hyps); the exit stub, or the program's own exit.
    See the comment at C01_full for exactly what this adds to the full statement.
    C01_program_nonvacuous: the theorem applied to the demo program of (4e) -- its validated image demo_image
-   (49 words), started with the console bytes 66 67, shows the spec's behaviour: outputs "3210B", one byte consumed,
-   exit 0; C01_program_nonvacuous_eof: started with an empty console it writes "3210" and the byte 255 (get at the end
-   of the input) and consumes nothing.  C01_demo_model_image: model_compile returns that image.
-   demo_model_image_opt (XCodegenDemo.v): with opt = true it returns 48 words, which tools/c01.py re-checks against
+   (50 words), started with the console bytes 66 67, shows the spec's behaviour: outputs "3210C", one byte consumed,
+   exit 0; C01_program_nonvacuous_eof: started with an empty console it writes "3210" and the byte 0 (get answers 255 at
+   the end of the input, ch = 256) and consumes nothing.  C01_demo_model_image: model_compile returns that image.
+   demo_model_image_opt (XCodegenDemo.v): with opt = true it returns 49 words, which tools/c01.py re-checks against
    the binary the real xcmp writes for the same source (coq_demo_image_tie), and does the same for generated
    fragment programs (program_model_tie: byte-identical images counted in the evidence). *)
 Theorem C01_program_partial : forall prm : params, C01_full (model_compile prm false).
@@ -446,13 +463,42 @@ Proof. exact program_correct. Qed.
 Print Assumptions C01_program_partial.
 
 Theorem C01_program_nonvacuous : exists n,
-  isa_shows demo_image [66; 67] n {| outputs := [(0, 51); (0, 50); (0, 49); (0, 48); (0, 66)]; consumed := 1; exit_value := 0 |}.
+  isa_shows demo_image [66; 67] n {| outputs := [(0, 51); (0, 50); (0, 49); (0, 48); (0, 67)]; consumed := 1; exit_value := 0 |}.
 Proof. exact demo_end_to_end. Qed.
 Print Assumptions C01_program_nonvacuous.
 Theorem C01_program_nonvacuous_eof : exists n,
-  isa_shows demo_image [] n {| outputs := [(0, 51); (0, 50); (0, 49); (0, 48); (0, 255)]; consumed := 0; exit_value := 0 |}.
+  isa_shows demo_image [] n {| outputs := [(0, 51); (0, 50); (0, 49); (0, 48); (0, 0)]; consumed := 0; exit_value := 0 |}.
 Proof. exact demo_end_to_end_eof. Qed.
 Print Assumptions C01_program_nonvacuous_eof.
+
+(* (4f') PARTIAL, from the SOURCE program: the composition of the front-end theorem of C07 with (4f).  p is the source
+   program (the AST XFront's parser model produces from the X text; C09 ties that reader to the real lexer / parser);
+   front p = COk p' are the front-end passes CreateSymbols, ConstProp and OptimiseExpr (XConstProp.front), which
+   Properties_C07.C07_front_preserves_run_partial shows to preserve XSem's behaviour under the decidable side
+   conditions names_ok p and front_swap_safe p and within a quarter of the default fuel; model_compile then lays p'
+   out.  Claim: if XSem gives the SOURCE program p the behaviour b (fuel f with 4 f <= 10^6, default steps and
+   depth), then the ISA booted on the image shows b.  See the comment at C01_full for what model_compile and the side
+   conditions exclude.  C01_source_program_nonvacuous: the theorem applied to the demo's source demo_src itself (its
+   side conditions hold by computation; XSem runs demo_src -- put and get still calls through the vals -- to "3210C"
+   with one byte consumed). *)
+Theorem C01_source_program_partial :
+  forall (prm : params) (p p' : program) (f : nat) (inp : list Z) (b : behaviour) (img : list Z),
+    XConstProp.front p = XConstProp.COk p' -> XFrontPreserve.names_ok p = true -> XFrontPreserve.front_swap_safe p = true -> (f * 4 <= default_fuel)%nat ->
+    run_fuel f default_steps default_depth p inp = Behaviour b ->
+    model_compile prm false p' = Some img -> exists n, isa_shows img inp n b.
+Proof. exact source_program_correct. Qed.
+Print Assumptions C01_source_program_partial.
+
+Theorem C01_source_program_nonvacuous : exists n,
+  isa_shows demo_image [66; 67] n {| outputs := [(0, 51); (0, 50); (0, 49); (0, 48); (0, 67)]; consumed := 1; exit_value := 0 |}.
+Proof. exact demo_source_end_to_end. Qed.
+Print Assumptions C01_source_program_nonvacuous.
+Example C01_source_demo_hyps :
+  XConstProp.front demo_src = XConstProp.COk demo /\ XFrontPreserve.names_ok demo_src = true /\ XFrontPreserve.front_swap_safe demo_src = true /\
+  run_fuel 100 default_steps default_depth demo_src [66; 67] =
+    Behaviour {| outputs := [(0, 51); (0, 50); (0, 49); (0, 48); (0, 67)]; consumed := 1; exit_value := 0 |} /\
+  model_compile demo_frames false demo = Some demo_image.
+Proof. exact (conj demo_front (conj (proj1 demo_src_side_conditions) (conj (proj2 demo_src_side_conditions) (conj demo_src_spec demo_model_image)))). Qed.
 
 Example C01_demo_model_image : model_compile demo_frames false demo = Some demo_image.
 Proof. exact demo_model_image. Qed.
